@@ -29,7 +29,7 @@ EXPLANATION = (
     ' (6) the MultiPV count that indexes / offsets the root list or is handed on with it is min(.., rootMoves.size()) at every use and the list is not resized after the clamp.'
     ' Added later; (7) the text printed for a move (bestmove, ponder, pv, currmove) is its UCI form: the suffix SearchListener::moveToString writes for each promotion piece, obtained by interpreting the printer for every promotion code, is the letter uciStringToMove reads back as that piece, and the listener formats moves only through the checked printers.'
     ' Added later; (8) MoveList::filter decides membership in the searchmoves list by move equality or by every field Move::operator== compares.'
-    ' Added later; (9) in the multi-PV report the entry just searched is printed under a not-yet-printed flag and every other entry where its index differs from it. (10) = C04.1: every checkmate score of negaScout / quiesce is \'mated in 0\' of the one linear family that notifyPV, the hash table and the 50-move margin decode. (11) = C04.9 the ABDADA control value BUSY is never read as a score.')
+    ' Added later; (9) in the multi-PV report the entry just searched is printed under a not-yet-printed flag and every other entry where its index differs from it. (10) = C04.1: every checkmate score of negaScout / quiesce is \'mated in 0\' of the one linear family that notifyPV, the hash table and the 50-move margin decode. (11) = C04.9 the ABDADA control value BUSY is never read as a score. (12) in every TBProbe function that plays moves on the caller\'s position, each makeMove is taken back on every path to the exit.')
 UNDECIDED = ('that the chosen move is good; playability of PVs beyond the validated-prefix rule; MultiPV distinctness by value; score '
              'ranges (see C04 for the mate-distance encoding).')
 ASSUMPTIONS = ['MoveGen::pseudoLegalMoves + removeIllegal produce exactly the legal moves (property C01)',
@@ -65,6 +65,7 @@ def run(fb, rep, tier):
     C04.c1_encoding(fb, rep, 'C03.10')
     # .11 the ABDADA control value BUSY never reaches a place where it is read as a score (shared with C04.9)
     C04.c9_busy_is_not_a_score(fb, rep, 'C03.11')
+    c12_borrowed_position_restored(fb, rep)
 
 
 # ----------------------------------------------------------------------------- .1
@@ -681,3 +682,30 @@ def c9_multipv_lines_distinct(fb, rep):
                             ne = True
             rep.ob(clause, 'K4 guard', 'multi-PV report: print #%d of another entry happens only where its index is known to differ from the entry just searched' % k, ne,
                    R.site(f, e), 'guards %s' % [('' if s_ else '!') + show(c, 50) for c, s_ in gs][-3:], f.sname)
+
+
+# ----------------------------------------------------------------------------- .12
+
+def c12_borrowed_position_restored(fb, rep):
+    """K1 pairing on a borrowed position.  The tablebase helpers that pre-select root moves play each legal move on the *search's
+    own* position object (passed by reference) and take it back.  A return between the two leaves that object one move
+    ahead with the wrong side to move: the root move list still belongs to the real root, every principal variation is then
+    extracted from the shifted position and continues with a move of the wrong side.  In every function of TBProbe that
+    makes a move on a non-const Position parameter, each makeMove is followed by the unMakeMove on every path to the exit."""
+    clause = 'C03.12'
+    n = 0
+    for f in sorted(fb.funcs.values(), key=lambda x: x.key):
+        if not f.has_cfg or not R.in_prog(f) or not f.sname.startswith('TBProbe::'):
+            continue
+        refs = {p_['id'] for p_ in f.d.get('params', []) if (p_.get('t') or '').replace(' ', '') == 'Position&'}
+        if not refs:
+            continue
+        for b, i, e in f.events():
+            if e.get('k') == 'call' and cname(e) == 'Position::makeMove' and (_strip(e.get('recv')) or {}).get('id') in refs:
+                n += 1
+                pid = _strip(e['recv'])['id']
+                undo = lambda x, _p=pid: x is not None and x.get('k') == 'call' and cname(x) == 'Position::unMakeMove' and (_strip(x.get('recv')) or {}).get('id') == _p
+                w = f.path_avoiding((b, i), R.at_exit, undo)
+                rep.ob(clause, 'K1 pairing', '%s: a move made on the caller\'s position is taken back on every path to the exit' % f.sname, w is None, R.site(f, e),
+                       '' if w is None else 'path to the exit without the take-back: ' + ' -> '.join('B%s@%s' % x for x in w[-6:]), f.sname)
+    rep.floor(clause, 'moves made on a borrowed position in TBProbe', n, 1)
